@@ -432,7 +432,7 @@ def scrape_batch(ctx, wu, link_lists):
         ctx.sample({'stream': 'scrape', 'links': link_lists[0][:6], 'rewriter': None})
 
 
-START_URLS = ['http://[::1]:8080/', 'http://[::1]/', 'https://[2001:db8::1]:443/x', 'https://[2001:DB8:0:0::1]:8443/', 'ftp://[::1]:2121/pub/',
+START_URLS = ['http\u017f://example.com/', 'w\u017f://h/', '\uff48ttp://h/', 'http://[::1]:8080/', 'http://[::1]/', 'https://[2001:db8::1]:443/x', 'https://[2001:DB8:0:0::1]:8443/', 'ftp://[::1]:2121/pub/',
               'http://[::ffff:1.2.3.4]:81/', 'http://127.0.0.1:8080/', 'http://0x7f.1:80/', 'http://example.com/', 'http://example.com:80/a',
               'http://example.com:8080/', 'https://example.com:80/', 'ftp://example.com/', 'ftp://example.com:21/', 'ftp://example.com:80/f',
               'http://bücher.example:8080/', 'http://EXAMPLE.com.:81', 'example.com:8000/p', 'localhost:8080', 'http://u:p@[::1]:8080/x?y#z',
@@ -687,7 +687,7 @@ def rewrite_batch(ctx, wu, urls):
 JUNK_LINKS = ['http://[::1/unclosed', 'http://exa mple.com/', 'http://example.com:99999999/', 'http://' + 'a' * 70 + '.com/',
               'http://example.com/\ud800', 'http://:/', '', ':', 'http://', 'http://\udc80@h/', 'http://h:x/', 'http://[fe80::1%eth0]/',
               'http://a..b/', '\x00', 'http://h/\x01', '//', 'http://@/', 'http://[]', 'http://é' + 'a' * 64 + '.com/']
-GOOD_LINKS = uc.BRACE_LINKS + ['http://example.com/page#!state', 'http://example.com/a.aspx?sid=0123456789abcdef0123456789abcdef',
+GOOD_LINKS = uc.BRACE_LINKS + ['http\u017f://example.com/x', 'w\u017f://h/', 'W\u017f\u017f://h/y#!z', '\uff46tp://h/', 'http://example.com/page#!state', 'http://example.com/a.aspx?sid=0123456789abcdef0123456789abcdef',
               'http://example.com/x?a=b#!c', 'https://example.com/(S(abcdefghijklmnopqrstuvwx))/p.aspx', 'ftp://example.com/f',
               'mailto:x@y', 'example.com/naked', 'http://example.com/?jsessionid=0123456789abcdef0123456789abcdef&z=1#!']
 
@@ -843,6 +843,7 @@ def run(ctx):
         rs(ctx, 'loglevel-parse', lambda: batch(ctx, wu, [uc.Case(c.url, c.ds, c.encoding, c.kind) for c in same]), level=level)
         rs(ctx, 'loglevel-orlog', lambda: batch(ctx, wu, [uc.Case(c.url, 'http', c.encoding, c.kind) for c in same[::2]], op='orlog'), level=level)
     nn = uc.non_network_cases(ctx.subrng('nonnet'), ctx.scale(600, 8000))
+    nn += uc.confusable_scheme_cases(ctx.subrng('confusable'), ctx.scale(600, 8000))
     by_level('non-network', nn, lambda part: batch(ctx, wu, part))
     by_level('non-network-orlog', [uc.Case(c.url, 'http', c.encoding, c.kind) for c in nn], lambda part: batch(ctx, wu, part, op='orlog'))
     by_level('normalize', nn + same[::3], lambda part: uc.stream_normalize(ctx, wu, part))
